@@ -1239,6 +1239,12 @@ pub fn replay_input(rep: &mut Report, v: &Value, dict: &Arc<FstDictionary>) {
             oracle(rep, &b, dict);
             let id = fe.strip_prefix("c:").unwrap_or(&fe).to_string();
             corr_ts_mask(rep, &id, &text);
+            if fe == "lhaskell" {
+                corr_lhs(rep, &text);
+            }
+            if fe == "gitcommit" {
+                corr_misc(rep, &text);
+            }
             if fe.starts_with("markdown") || fe == "gitcommit" {
                 corr_markdown(rep, &text, fe == "markdown-ilt");
             }
